@@ -39,11 +39,16 @@ Barrier = BarrierType()
 
 
 def _to_naive_utc_time(value: dt.datetime | None) -> dt.datetime | None:
-    return (
-        value.astimezone(dt.timezone.utc).replace(tzinfo=None)
-        if value and value.tzinfo
-        else value
-    )
+    if not value:
+        return value
+    try:
+        # A naive datetime denotes local time (as the file stores report and datetime.now() returns);
+        # astimezone interprets it that way and honours fold, so every value is compared as an instant.
+        return value.astimezone(dt.timezone.utc).replace(tzinfo=None)
+    except (OverflowError, ValueError, OSError):
+        if value.tzinfo:
+            raise
+        return value
 
 
 def _get_stale_scope(call: Call, registry: Registry) -> tuple:
